@@ -72,6 +72,21 @@ CHECKS = {
          "Every grey of every RGB standard (sRGB, linear, Adobe, Rec.709/2020, Display P3, DCI-P3, DCI-P3+, ProPhoto; f32/f64) is converted along every discovered edge: the result must be achromatic in the target's own terms (a/b, u/v, chroma, saturation, w+b=1, equal components, white-point chromaticity) and the conversion back must give equal RGB components; white must land on the XYZ of the white point, L* = 100 with zero a/b/u/v/chroma and Oklab (1,0,0). Matrix pairs are multiplied both ways against the identity and inverted. Adaptation: source white -> destination white, bit-exact identity between equal white points, there-and-back, deprecated and new API agree, for all white-point pairs, Bradford / von Kries / XYZ scaling, 344 XYZ points each.",
          "Numerically zero = 2e-6 (f64) / 2e-5 (f32) of the component range, 50x that for saturation-type coordinates; CAM16 J = 100 for the adopted white is checked under C16. Three genuine findings recorded (saturation at white in Hsluv/Okhsl, M1 white point).",
          "§4 C14"),
+ "C04": ("model_checking",
+         "exhaustive enumeration of (type x cast form x buffer length x vector capacity) shapes - every length 0..=4N+1 and every capacity len..=len+N+1 actually obtained from the allocator - through every free cast function and cast trait on the real code, with exact shape/pointer/content predictions; a logging global allocator observes (de)allocations; Miri as UB oracle on a smaller bound in the thorough tier",
+         "142 ArrayCast instantiations (all 27 derived families at f32/f64, integer components where allowed, Alpha and PreAlpha wrappers, nested wrappers, Packed arrays, f32x4) x 36 free functions incl. map_*_in_place, 12 representative types x every cast-trait method x every owner kind, and the uint casts of Luma/Packed at u8..u128: components are distinct sentinels (two palettes incl. NaN payloads), so field order (against the type's own into_components(), alpha last), identity of memory (pointer before == after, writes through the view visible in the original), exact len/capacity scaling, bitwise round trips, rejection iff len % N != 0 (or capacity % N != 0 for vectors) with the right error kind and the buffer handed back unchanged, panicking variants panic iff the try_ variant errs, size_of/align_of equalities, and allocator silence during a cast are all decided exactly. A textual scan of palette/src warns about implementors the list lacks.",
+         "Cast traits run on a 12-type subset; when both length and capacity are bad either error kind is accepted; bytemuck impls are not exercised; Miri covers 9 011 cases on 16 types.",
+         "§4 C04"),
+ "C10": ("model_checking",
+         "exhaustive enumeration of (colour lattice x factor lattice x partner lattice) products for every operator trait x implementing type x variant (by value, assigning, slice, Alpha, PreAlpha) on the real code; algebra relations against closed-form predictions, variant agreement bitwise",
+         "28 colour types with explicit per-type trait lists, f32/f64: in-range colour lattices (bounded components at min, min+ulp, quartiles, max-ulp, max; hues at sector edges +- ulp, 0/360/-360/720/+-180, pairs exactly opposite +- ulp and straddling 0/360) x 14 factors {-1 ... 2} x up to 30 partners: mix ends, factor clamping (bitwise), betweenness, shorter hue arc; lighten/darken/saturate/desaturate (+_fixed) monotone along the factor lattice, reach the accessor limit at 1, stay in range, leave other components bit-identical, negated-amount equivalences bitwise; shift/with/set hue; Complementary..Tetradic against shift_hue and, for Lab/Luv/Oklab/Cam16UcsJab, a rotation model and the polar route; Add/Sub/Mul/Div with colour and scalar; u8 SaturatingAdd/Sub (Luma complete 256^2); every assigning, slice (lengths 0..3 and whole lattice), Alpha and PreAlpha form bit-identical to the by-value form on the bare colour.",
+         "Numeric relations use 16 ulps of the component scale (64 for the polar route), >= 13x observed rounding; Cam16 (full) and SIMD component types are not covered.",
+         "§4 C10"),
+ "C19": ("model_checking",
+         "exhaustive enumeration of the answers of an environment the harness owns: every script of RNG words over a word lattice (W^d for the d words a sample draws; 24 / 70 words) for every sampler and every end-point pair of a range lattice, and a complete 2^10 x 2^10 (2^11 thorough) word grid for the volume claim, on the real Standard/Uniform sampler code under a scripted RngCore; no pseudo-random stream decides anything",
+         "47 Standard specs (21 colour types, their Alpha forms, 5 hue types; f32/f64) x all scripts: is_within_bounds and accessor bounds, draw count per sample measured and constant. Uniform: end points per component from {full range, sub-range, equal ends, adjacent floats, 2^-20 of the range} x {new, new_inclusive} x all scripts: every component between the ends (equivalent HSV saturation/value for the HWB forms), hues on the arc from low to high for arcs that do and do not wrap. Volume without statistics: for Hsv/Okhsv/Hsl/Okhsl/Hwb/Okhwb the images of the complete word grid are counted in 16 x 16 equal-volume cells of the cone/bicone (allowed deviation = counted grid points within a quarter step of a cell boundary) and compared with the closed-form inverse CDF derived from the geometry; Standard hue over a complete 2^12 / 2^16 word grid in 64 arcs.",
+         "rand 0.8.8's float sampling maps words to [0,1) as read from its source; rand constructor panics (low >= high) produce no colour and are counted, not judged; Hsluv is range-checked only.",
+         "§4 C19"),
 }
 PENDING = {}
 ALL = ["C%02d" % i for i in range(1, 21)]
